@@ -229,7 +229,7 @@ def run_machines(state, machines, n_examples, seedval, steps):
 def cmd_run(argv):
     prop, tier, shard, nshards, seedval, out = argv[:6]
     shard, nshards, seedval = int(shard), int(nshards), int(seedval)
-    check_repo_import()
+    check_repo_import(prop.upper())
     mod = importlib.import_module("props." + prop.lower())
     state = ShardState(mod, tier, shard)
     budget = mod.BUDGET[tier]
@@ -269,7 +269,7 @@ def cmd_run(argv):
 
 def cmd_replay(argv):
     prop, casefile, out = argv[:3]
-    check_repo_import()
+    check_repo_import(prop.upper())
     mod = importlib.import_module("props." + prop.lower())
     with open(casefile) as fh:
         data = json.load(fh)
